@@ -37,6 +37,9 @@ GPARSER = "src/pest/grammar/parser.py"
 UNESCAPE = "src/pest/grammar/unescape.py"
 OPT = "src/pest/grammar/optimizer.py"
 PRATT = "src/pest/pratt.py"
+EXC = "src/pest/exceptions.py"
+SKIPPERS = "src/pest/grammar/optimizers/skippers.py"
+PARSER = "src/pest/parser.py"
 
 # (id, properties whose check must react, file, old, new, expectation, substring expected in the output for 'fire')
 CATALOGUE: list[tuple] = [
@@ -97,6 +100,23 @@ CATALOGUE: list[tuple] = [
     ("S-stack-drop-reordered", ["C09"], STACK, "        size = len(self.popped)\n        del self.popped[size - dropped : size - keep]", "        end = len(self.popped) - keep\n        del self.popped[end - (dropped - keep) : end]", "silent", ""),
     ("S-scanner-error-local", ["C11"], SCANNER, "        value = self.grammar[self.pos : self.pos + 1]", "        at = self.pos\n        value = self.grammar[at : at + 1]", "silent", ""),
     ("S-pratt-bound-ifexp", ["C18"], PRATT, "prec + (0 if right_assoc else 1)", "(prec if right_assoc else prec + 1)", "silent", ""),
+    # ---- rules added after the seeded round
+    ("order-empty-literal", ["C02"], CHOICE, "        if isinstance(a, UnicodePropertyRule) or not b.value:", "        if isinstance(a, UnicodePropertyRule):", "fire", "is_order_independent"),
+    ("order-range-end-exclusive", ["C02"], CHOICE, "        return any(a.start <= v <= a.end for v in variants if len(v) == 1)", "        return any(a.start <= v < a.end for v in variants if len(v) == 1)", "fire", "is_order_independent"),
+    ("skip-no-visited-set", ["C11"], SKIPPERS, "        if rule and expr.value not in seen:", "        if rule:", "fire", "GRAPH-RECURSION"),
+    ("parse-int-unbounded", ["C11"], GPARSER, "        if not -(2**31) <= value < 2**32:\n            raise PestGrammarSyntaxError(\"number out of range\", token=token)\n        return value", "        return value", "fire", "NUM-BOUND"),
+    ("from-grammar-no-recursion-guard", ["C11"], PARSER, "        except RecursionError as err:", "        except MemoryError as err:", "fire", "RecursionError"),
+    ("merge-end-not-max", ["C12"], CHOICE, "            merged[-1][1] = max(merged[-1][1], e)", "            merged[-1][1] = e", "fire", "_optimize_char_class"),
+    ("merge-joins-across-gap", ["C12"], CHOICE, "        if not merged or s > merged[-1][1] + 1:", "        if not merged or s > merged[-1][1] + 2:", "fire", "_optimize_char_class"),
+    ("class-single-not-escaped", ["C12"], CHOICE, "            parts_out.append(re.escape(chr(s)))", "            parts_out.append(chr(s))", "fire", "_optimize_char_class"),
+    ("error-context-no-keepends", ["C13"], EXC, "    lines = text.splitlines(keepends=True)\n    cumulative_length = 0", "    lines = text.splitlines()\n    cumulative_length = 0", "fire", "LINE-OFFSET"),
+    ("skipuntil-or-default", ["C02", "C16"], TERMINALS, "        if best_index is not None:\n            state.pos = best_index\n        else:\n            state.pos = len(s)\n", "        state.pos = best_index or len(s)\n", "fire", "SkipUntil.parse"),
+    ("checkpoint-conditional-snapshot", ["C05", "C09"], STATE, "        self.user_stack.snapshot()\n        self.rule_stack.snapshot()", "        if not self.user_stack.empty():\n            self.user_stack.snapshot()\n        self.rule_stack.snapshot()", "fire", "ParserState.checkpoint"),
+    ("pratt-prefix-max", ["C18"], PRATT, "            prec = self.PREFIX_OPS[token.name]", "            prec = max(self.PREFIX_OPS[token.name], min_prec)", "fire", "prefix"),
+    ("S-merge-branches-inverted", ["C12"], CHOICE, "        if not merged or s > merged[-1][1] + 1:\n            merged.append([s, e])\n        else:\n            merged[-1][1] = max(merged[-1][1], e)", "        if merged and s <= merged[-1][1] + 1:\n            merged[-1][1] = max(merged[-1][1], e)\n        else:\n            merged.append([s, e])", "silent", ""),
+    ("S-order-overlap-ord-form", ["C02"], CHOICE, "        return any(a.start <= v <= a.end for v in variants if len(v) == 1)", "        return any(ord(a.start) <= ord(v) <= ord(a.end) for v in variants if len(v) == 1)", "silent", ""),
+    ("S-error-context-named-flag", ["C13"], EXC, "    lines = text.splitlines(keepends=True)\n    cumulative_length = 0", "    lines = text.splitlines(True)\n    cumulative_length = 0", "silent", ""),
+    ("S-skipuntil-min-builtin", ["C02", "C16"], TERMINALS, "            if pos != -1 and (best_index is None or pos < best_index):\n                best_index = pos", "            if pos != -1:\n                best_index = pos if best_index is None else min(best_index, pos)", "silent", ""),
 ]
 
 
